@@ -310,9 +310,14 @@ pub fn run(cfg: &RunCfg, rep: &mut Report) {
 
         // B. descriptors over four key types
         let mut ctr = 0usize;
-        let mut string_key = |_: &mut Rng, _: Cx| {
+        // key names over the whole alphanumeric part of the checksum's input character set (every
+        // letter in both cases and every digit gets used, so that every CHAR_MAP entry matters)
+        let mut string_key = |r: &mut Rng, _: Cx| {
             ctr += 1;
-            format!("K{}", ctr)
+            const AL: &[u8] = b"ABCDEFGHIJKLMNOPQRSTUVWXYZabcdefghijklmnopqrstuvwxyz0123456789_";
+            let n = 1 + r.below(6);
+            let name: String = (0..n).map(|_| AL[r.below(AL.len())] as char).collect();
+            format!("{}{}", name, ctr)
         };
         let mut checksummed: Vec<String> = vec![];
         for s in desc_strings(&mut rng, &world, &mut string_key, max_nodes) {
